@@ -19,6 +19,19 @@ func VerifC13Generic() {
 		}
 		order = append(order, key)
 	}
+	// Concrete warm-up: pre puts of distinct keys 0..pre-1 (pre > capacity: the
+	// symbolic history starts from a cache that has already displaced keys, so
+	// that a second, third... displacement is inside the bound).
+	for x := 0; x < vp.N("pre"); x++ {
+		key := x % nkeys
+		if _, ok := vals[key]; !ok && len(order) == capacity {
+			delete(vals, order[0])
+			order = order[1:]
+		}
+		c.Put(key, int32(100+x))
+		vals[key] = int32(100 + x)
+		touch(key)
+	}
 	for i := 0; i < k; i++ {
 		tag := vp.Itoa(i)
 		switch vp.Choice("op"+tag, 3) {
